@@ -145,6 +145,62 @@ func runC03(c *Ctx) {
 						}
 					}
 				}
+				// nothing else may decide whether a cell's width is taken into account
+				for _, cf := range dominatingConds(st.Block()) {
+					hb := cf.If.Block()
+					isHdr := false
+					for _, pr := range hb.Preds {
+						if hb.Dominates(pr) {
+							isHdr = true
+						}
+					}
+					if isHdr {
+						continue
+					}
+					okCond := false
+					if x, _, isT := nilTest(cf.Cond); isT && isHeadersResult(x) {
+						okCond = true
+					}
+					if call, isCall := cf.Cond.(*ssa.Call); isCall && call.Call.StaticCallee() != nil && call.Call.StaticCallee().Name() == "IsSeparator" && !cf.Val {
+						okCond = true
+					}
+					if bo, isB := cf.Cond.(*ssa.BinOp); isB {
+						switch bo.Op {
+						case token.GTR, token.LSS, token.GEQ, token.LEQ:
+							// the index bound tests (i >= len(headers), i >= columnCount) and the new > old test
+							cs := p.condConstraints(cf.Cond, cf.Val)
+							idx := p.linOf(ia.Index)
+							for _, c1 := range cs {
+								for t := range idx.coef {
+									if _, has := c1.e.coef[t]; has {
+										okCond = true
+									}
+								}
+							}
+							if p.canon(bo.X) == p.canon(st.Val) || p.canon(bo.Y) == p.canon(st.Val) {
+								okCond = true
+							}
+						}
+					}
+					if !okCond {
+						// a guard of the whole render (its other branch leaves the function and never rejoins) is fine
+						other := hb.Succs[0]
+						if cf.Val {
+							other = hb.Succs[1]
+						}
+						ro, rs := blockReach(other, nil), blockReach(st.Block(), nil)
+						disjoint := true
+						for b := range ro {
+							if rs[b] {
+								disjoint = false
+							}
+						}
+						okCond = disjoint
+					}
+					if !okCond {
+						r.Check("R03.1", FuncName(fn), fmt.Sprintf("store #%d into the column widths is not conditional on anything but the cell's existence", ns), st.Pos(), false, "guarded by "+cf.Cond.String()+": some cells would not widen their column")
+					}
+				}
 				r.Check("R03.1", FuncName(fn), fmt.Sprintf("store #%d into the column widths is the header's width or a maximum update", ns), st.Pos(), isCW && (guarded || hdrInit),
 					fmt.Sprintf("measured cell width: %v, guarded by new > old: %v, header initialisation: %v", isCW, guarded, hdrInit))
 			}
@@ -221,6 +277,8 @@ func runC03(c *Ctx) {
 		}
 		r.Floor("R03.3", "constructions of the layout width", n, 1)
 	}
+
+	checkEmitWidth(c, "R03.3")
 
 	// ---- R03.4
 	need := map[string]bool{}
@@ -698,6 +756,68 @@ func runC04(c *Ctx) {
 			}
 			r.Check("R04.4", FuncName(ds), "a cell occupies at least its declared height and at least its line count", in.Pos(), ok1 && ok2, fmt.Sprintf(">= declared height: %v, >= line count: %v", ok1, ok2))
 		})
+	}
+
+	// the item's own Height()/TerminalCellWidth() is consulted for every item that reaches the text dispatch,
+	// whatever its text (an item with empty text may still declare a size)
+	if upd := c.Method(c.Named("", "Cell"), true, "Update"); upd != nil {
+		rawF := c.Field(c.Named("", "Cell"), "raw")
+		arms := typeSwitchArms(upd, rawF)
+		for _, iface := range []struct{ name, method, field string }{{"Heighter", "Height", "height"}, {"TerminalCellWidther", "TerminalCellWidth", "width"}} {
+			var ta *ssa.TypeAssert
+			eachInstr(upd, func(in ssa.Instruction) {
+				if x, ok := in.(*ssa.TypeAssert); ok && x.CommaOk && isNamed(x.AssertedType, modPath, iface.name) {
+					if f, _ := loadedField(x.X); f == rawF {
+						ta = x
+					}
+				}
+			})
+			if ta == nil {
+				r.Check("R04.4", FuncName(upd), "consults the item's "+iface.method+"()", upd.Pos(), false, "no assertion to "+iface.name)
+				continue
+			}
+			ok, why := true, ""
+			for _, a := range arms {
+				if a.Kind == "nil" || (a.Kind == "concrete" && isNamed(a.Type, modPath, "Cell")) {
+					continue
+				}
+				// every path from the arm to a return passes the assertion
+				seen := map[*ssa.BasicBlock]bool{}
+				var walk func(b *ssa.BasicBlock) bool
+				walk = func(b *ssa.BasicBlock) bool {
+					if seen[b] {
+						return true
+					}
+					seen[b] = true
+					for _, in := range b.Instrs {
+						if in == ssa.Instruction(ta) {
+							return true
+						}
+						if _, isRet := in.(*ssa.Return); isRet {
+							return false
+						}
+					}
+					for _, s := range b.Succs {
+						if !walk(s) {
+							return false
+						}
+					}
+					return true
+				}
+				if !walk(a.Entry) {
+					ok, why = false, "for "+a.name()+" there is a path to return that never asks the item for its "+iface.method+"()"
+				}
+			}
+			// the ok edge stores the declared value
+			stored := false
+			fld := c.Field(c.Named("", "Cell"), iface.field)
+			for _, fs := range c.StoresTo(fld) {
+				if call, isCall := fs.St.Val.(*ssa.Call); isCall && call.Call.IsInvoke() && call.Call.Method.Name() == iface.method {
+					stored = true
+				}
+			}
+			r.Check("R04.4", FuncName(upd), "an item's declared "+iface.method+"() is consulted on every path (also for empty text) and recorded", ta.Pos(), ok && stored, why)
+		}
 	}
 
 	// ---- R04.3
